@@ -2145,8 +2145,8 @@ package xpath
 //@   modifies heap(F:scanner.*)
 //@   ensures[swf@C17] swf(s)
 //@   ensures[qualified-name@C17] result && s.typ == itemName && s.prefix != "" ==> s.name != ""
-//@   ensures[name-split@C14] result && s.typ == itemName ==> called(scanName, 0) && ite(called(scanName, 1), s.prefix == retval(scanName, 0) && s.name == retval(scanName, 1), ite(s.name == "*" && s.prefix != "", s.prefix == retval(scanName, 0), s.prefix == "" && s.name == retval(scanName, 0)))     // prefix and local part are the two names scanned for THIS token (no prefix: none)
-//@   ensures[axis-name@C14] result && s.typ == itemAxe ==> s.prefix == "" && s.name == retval(scanName, 0)
+//@   ensures[name-split@C14!!] result && s.typ == itemName ==> called(scanName, 0) && ite(called(scanName, 1), s.prefix == retval(scanName, 0) && s.name == retval(scanName, 1), ite(s.name == "*" && s.prefix != "", s.prefix == retval(scanName, 0), s.prefix == "" && s.name == retval(scanName, 0)))     // prefix and local part are the two names scanned for THIS token (no prefix: none)
+//@   ensures[axis-name@C14!!] result && s.typ == itemAxe ==> s.prefix == "" && s.name == retval(scanName, 0)
 //@   ensures[progress@C06] smeas(s) <= old(smeas(s)) && (result ==> smeas(s) < old(smeas(s))) && result == (s.typ != itemEOF)
 //@ func (*scanner).skipSpace
 //@   props C06 C17 C10
